@@ -90,3 +90,54 @@ Example C09_ex :
   alive (move g p (Some (1 # 4, 3))) = false /\ alive (move g p None) = false /\
   px (move g p (Some (2 + (1#4), 3))) = 2 + (1#4).
 Proof. split; [intros _; split; reflexivity|]. vm_compute. repeat split. Qed.
+
+(** * The same rules in the CLOSED RUN MODEL of whole set-ups (Model/Setup.v; closed theorems C08 / C10 / C14;
+    tied to ladim.main by Corr/SetupRun.v): one horizontal line with land cells [s_land]; the cell of a position
+    is its round-half-even as in [cellI]; the u-faces next to a land cell are masked to zero and the particle
+    feels the linear interpolation between its two faces (ROMS.Forcing._read_velocity, sample3DUV). *)
+From Ladim Require Model.Setup Proofs.SetupProofs.
+(** the candidate: x + (flow felt at x) * dt/dx, the flow in force being u * factor(depth class) *)
+Theorem C09_setup_candidate : forall s u v c,
+  SetupProofs.cand s u v c == Setup.vx v + Setup.felt s (u * Setup.cfac s c) (Setup.vx v) * Setup.s_dtdx s.
+Proof. exact SetupProofs.cand_value. Qed.
+Print Assumptions C09_setup_candidate.
+(** killed exactly when the candidate leaves the valid interval; the value is kept *)
+Theorem C09_setup_killed_iff_candidate_outside : forall s u v c,
+  snd (Setup.move s u v c) = SetupProofs.inside s (SetupProofs.cand s u v c) /\
+  (SetupProofs.inside s (SetupProofs.cand s u v c) = false -> Setup.move s u v c = (v, false)).
+Proof. intros s u v c. split; [apply SetupProofs.move_alive_iff|apply SetupProofs.move_outside]. Qed.
+Print Assumptions C09_setup_killed_iff_candidate_outside.
+(** a move onto land is cancelled: the particle stays where it is, alive *)
+Theorem C09_setup_land_move_cancelled : forall s u v c,
+  SetupProofs.inside s (SetupProofs.cand s u v c) = true ->
+  Setup.is_land s (qround (SetupProofs.cand s u v c)) = true -> Setup.move s u v c = (v, true).
+Proof. exact SetupProofs.move_onto_land. Qed.
+Print Assumptions C09_setup_land_move_cancelled.
+(** otherwise the particle moves to the candidate *)
+Theorem C09_setup_moves_to_candidate : forall s u v c,
+  SetupProofs.inside s (SetupProofs.cand s u v c) = true ->
+  Setup.is_land s (qround (SetupProofs.cand s u v c)) = false ->
+  Setup.move s u v c =
+    ({| Setup.vx := SetupProofs.cand s u v c; Setup.vcls := Setup.vcls v; Setup.vage := Setup.vage v;
+        Setup.vtemp := Setup.vtemp v |}, true).
+Proof. exact SetupProofs.move_at_sea. Qed.
+Print Assumptions C09_setup_moves_to_candidate.
+(** the flow felt: the whole flow where the three cells around the two faces are sea (in particular without
+    land), nothing when the cell between the two faces is land *)
+Theorem C09_setup_felt_flow : forall s U x, let k := qfloor (x - (1 # 2)) in
+  (Setup.is_land s k = false -> Setup.is_land s (k + 1) = false -> Setup.is_land s (k + 2) = false ->
+   Setup.felt s U x == U) /\
+  (Setup.s_land s = [] -> Setup.felt s U x == U) /\
+  (Setup.is_land s (k + 1) = true -> Setup.felt s U x == 0).
+Proof.
+  intros s U x k. split; [apply SetupProofs.felt_open|].
+  split; [apply SetupProofs.felt_no_land|apply SetupProofs.felt_in_land].
+Qed.
+Print Assumptions C09_setup_felt_flow.
+(** T6 for the closed run model: every particle of every record of the set-up's run is inside the valid
+    interval in a sea cell, when the particles are released there *)
+Theorem C09_setup_every_record_in_water : forall s,
+  (forall n x, In x (Setup.m_release s n) -> SetupProofs.wet s (snd x)) ->
+  Forall (fun r => Forall (fun x => SetupProofs.wet s (snd x)) (Sim.rrows r)) (Sim.recs (Setup.m_run s)).
+Proof. exact SetupProofs.setup_records_in_water. Qed.
+Print Assumptions C09_setup_every_record_in_water.
